@@ -28,6 +28,7 @@ mod scen_pw;
 mod scen_ref;
 mod scen_tcp;
 mod scen_udp;
+mod scen_ustream;
 
 use std::time::Instant;
 
@@ -45,6 +46,8 @@ fn generate(prop: &str, seed: u64, thorough: bool) -> Option<Plan> {
         "C06" => Some(scen_adv::gen_adv("C06", seed, thorough)),
         "C07" => Some(scen_adv::gen_adv("C07", seed, thorough)),
         "C08" => Some(scen_c08::gen_c08(seed, thorough)),
+        "C04udp" => Some(scen_ustream::gen_ustream("C04", seed, thorough)),
+        "C07udp" => Some(scen_ustream::gen_ustream("C07", seed, thorough)),
         "C08udp" => Some(scen_c08u::gen_c08u(seed, thorough)),
         "C09" => Some(scen_tcp::gen_c09(seed, thorough)),
         "C10" => Some(scen_c10::gen_c10(seed, thorough)),
@@ -68,6 +71,7 @@ fn execute(plan: &Plan) -> Outcome {
         "local-hs" => scen_local::execute_c13(plan),
         "teardown" => scen_c15::execute_c15(plan),
         "survival" => scen_c08::execute_c08(plan),
+        "dgram-in-stream" => scen_ustream::execute_ustream(plan),
         "survival-udp" => scen_c08u::execute_c08u(plan),
         "udp-system" => scen_udp::execute_udp(plan),
         "pw-model" => scen_pw::execute_pw(plan),
